@@ -1,4 +1,5 @@
 import Py4hwV.Proofs.C16Bridge
+import Py4hwV.Proofs.C16Clk
 import Py4hwV.Gen.Fsm
 /-
   C16 — AXI4-Stream adapters never lose, duplicate or corrupt a beat.
@@ -1077,5 +1078,24 @@ example :
 
 example : R2A.tkeepVal 32 % 2^8 = 0xF ∧ R2A.tkeepVal 8 % 2^8 = 1 ∧ R2A.tkeepVal 9 % 2^1 = 1 ∧ R2A.tkeepVal 64 % 2^8 = 0xFF := by
   decide
+
+/-! ### Axi2Clk / Axi2ClkFSM sequencing (proved in Proofs/C16Clk.lean, restated here as obligations of C16)
+
+  * `Axi.Clk.stepG_eq_step`            one cycle through the code GENERATED from `Axi2ClkFSM.clock` = the reference step
+                                        (pins the end-of-count test to the LATCHED target, not to the live TDATA)
+  * `Axi.Clk.clk_counts_accepted_beat` pulses generated = value of the ACCEPTED beat, for every TDATA/TVALID/start/reset/done
+                                        behaviour after the handshake; then one load_outs pulse; FSM idle again
+  * `Axi.Clk.clk_oracle_accepts_model`/`_generated`  the oracle `Spec.Clk.check` accepts every schedule
+  * `Axi.Clk.clk_stale_count_counterexample`         finding: a beat accepted right after END counts from the old target -/
+
+/-- the headline statement on the GENERATED FSM: through `stepG` (i.e. `Gen.Axi2ClkFSM.step`), a beat T accepted by an idle,
+    cleared Axi2Clk yields exactly T pulses then load_outs, whatever the inputs do during the count. -/
+theorem clk_generated_counts_accepted_beat (c : Clk.Cfg) (s : Clk.St) (i0 : Clk.In) (js : List Clk.In)
+    (hidle : s.state = 0) (hclear : s.count = 0) (hact : s.active = 1) (hvalid : i0.tvalid = 1)
+    (hT1 : 1 ≤ i0.tdata) (hT2 : i0.tdata < 2^c.CW) (hlen : js.length = 2 * i0.tdata + 1) :
+    Clk.outs c (Clk.stepG c s i0) js = Spec.Clk.pulseTrain i0.tdata ∧
+    ((Spec.Clk.pulseTrain i0.tdata).filter (fun p => p.1 == 1)).length = i0.tdata := by
+  rw [Clk.stepG_eq_step]
+  exact ⟨(Clk.clk_counts_accepted_beat c s i0 js hidle hclear hact hvalid hT1 hT2 hlen).1, (Clk.pulseTrain_count _).1⟩
 
 end C16
